@@ -513,7 +513,7 @@ fn gen_pair(rng: &mut Rng, cfg: &str) -> (B, B) {
         "boundary" => {
             // too_far boundary: Pythagorean half-dimensions so that every f32 operation is exact; centre distance
             // exactly r1+r2 (not too far), one ulp more (too far), one ulp less
-            let trip = [(3.0f32, 4.0f32, 5.0f32), (6.0, 8.0, 10.0), (5.0, 12.0, 13.0), (8.0, 15.0, 17.0), (1.5, 2.0, 2.5)];
+            let trip = [(3.0f32, 4.0f32, 5.0f32), (6.0, 8.0, 10.0), (12.0, 16.0, 20.0), (0.75, 1.0, 1.25), (1.5, 2.0, 2.5)];
             let (hw1, hh1, r1) = *rng.pick(&trip);
             let (hw2, hh2, r2) = *rng.pick(&trip);
             let mk = |hw: f32, hh: f32, swap: bool, ang: Option<f32>, x: f32, y: f32| {
@@ -779,14 +779,27 @@ fn sampled_share(boxes: &[B], i: usize, m: usize) -> f64 {
     free as f64 / (m * m) as f64
 }
 
-fn shares_of(boxes: &[B]) -> Option<(Vec<f32>, Vec<f64>)> {
-    let ubs: Vec<Universal2DBox> = boxes.iter().map(|b| b.ub()).collect();
-    guarded(|| {
-        let refs: Vec<&Universal2DBox> = ubs.iter().collect();
-        let own = exclusively_owned_areas(refs.as_ref());
-        let shares = exclusively_owned_areas_normalized_shares(refs.as_ref(), own.as_ref());
-        (shares, own.iter().map(|p| p.unsigned_area()).collect())
-    })
+/// result of one call of the own-area functions: Ok(shares, areas), Err("P") on a panic, Err("T") when the call did
+/// not return within the watchdog time (GEOM_TIMEOUT seconds, default 20; a normal call takes milliseconds)
+fn shares_of(boxes: &[B]) -> Result<(Vec<f32>, Vec<f64>), &'static str> {
+    let bs: Vec<B> = boxes.to_vec();
+    let (tx, rx) = std::sync::mpsc::channel();
+    std::thread::spawn(move || {
+        let ubs: Vec<Universal2DBox> = bs.iter().map(|b| b.ub()).collect();
+        let r = guarded(|| {
+            let refs: Vec<&Universal2DBox> = ubs.iter().collect();
+            let own = exclusively_owned_areas(refs.as_ref());
+            let shares = exclusively_owned_areas_normalized_shares(refs.as_ref(), own.as_ref());
+            (shares, own.iter().map(|p| p.unsigned_area()).collect::<Vec<f64>>())
+        });
+        let _ = tx.send(r);
+    });
+    let secs: u64 = std::env::var("GEOM_TIMEOUT").ok().and_then(|x| x.parse().ok()).unwrap_or(20);
+    match rx.recv_timeout(std::time::Duration::from_secs(secs)) {
+        Ok(Some(v)) => Ok(v),
+        Ok(None) => Err("P"),
+        Err(_) => Err("T"),
+    }
 }
 
 fn permutations(n: usize) -> Vec<Vec<usize>> {
@@ -810,8 +823,14 @@ fn permutations(n: usize) -> Vec<Vec<usize>> {
     out
 }
 
-fn eval_set(k: usize, cfg: &str, boxes: &[B], rng: &mut Rng, sample: bool) {
+fn eval_set(k: usize, cfg: &str, boxes: &[B], seed: u64, sample: bool) {
+    // the random permutations have their own generator so that skipping a set does not shift the stream
+    let rng = &mut Rng::new(seed.wrapping_mul(1_000_003).wrapping_add(k as u64));
+    let mut timed_out = false;
     let n = boxes.len();
+    if std::env::var("GEOM_TRACE").is_ok() {
+        eprintln!("set {} cfg={} boxes={}", k, cfg, boxes.iter().map(|b| b.txt()).collect::<Vec<_>>().join(";"));
+    }
     let mut line = format!(
         "set {} cfg={} boxes={} cs={}",
         k,
@@ -824,8 +843,12 @@ fn eval_set(k: usize, cfg: &str, boxes: &[B], rng: &mut Rng, sample: bool) {
         boxes.iter().map(|b| coords(&b.ub().get_vertices())).collect::<Vec<_>>().join(";")
     );
     match shares_of(boxes) {
-        None => line += &format!(" res=P own=P panic={}", last_panic()),
-        Some((sh, own)) => {
+        Err("T") => {
+            line += " res=T own=T";
+            timed_out = true;
+        }
+        Err(_) => line += &format!(" res=P own=P panic={}", last_panic()),
+        Ok((sh, own)) => {
             line += &format!(
                 " res={} own={}",
                 sh.iter().map(|x| f32b(*x)).collect::<Vec<_>>().join(","),
@@ -866,18 +889,31 @@ fn eval_set(k: usize, cfg: &str, boxes: &[B], rng: &mut Rng, sample: bool) {
     perms.retain(|p| p.iter().enumerate().any(|(i, x)| i != *x));
     let mut ps = vec![];
     for p in &perms {
+        if timed_out {
+            break;
+        }
         let pb: Vec<B> = p.iter().map(|i| boxes[*i]).collect();
         let r = match shares_of(&pb) {
-            None => {
+            Err("T") => {
+                timed_out = true;
+                "T".to_string()
+            }
+            Err(_) => {
                 line += &format!(" panic={}", last_panic());
                 "P".to_string()
             }
-            Some((sh, _)) => sh.iter().map(|x| f32b(*x)).collect::<Vec<_>>().join(","),
+            Ok((sh, _)) => sh.iter().map(|x| f32b(*x)).collect::<Vec<_>>().join(","),
         };
         ps.push(format!("{}>{}", p.iter().map(|i| i.to_string()).collect::<Vec<_>>().join(""), r));
     }
     line += &format!(" perms={}", if ps.is_empty() { "-".to_string() } else { ps.join("|") });
     println!("{}", line);
+    if timed_out {
+        // the stuck call still occupies worker threads: stop here, the driver resumes with --from k+1
+        use std::io::Write;
+        let _ = std::io::stdout().flush();
+        std::process::exit(3);
+    }
 }
 
 fn gen_set(rng: &mut Rng, cfg: &str) -> Vec<B> {
@@ -1101,18 +1137,24 @@ fn main() {
         }
         "sets" => {
             let only: Option<String> = a.rest.iter().position(|x| x == "--cfg").map(|i| a.rest[i + 1].clone());
+            let from: usize = a.rest.iter().position(|x| x == "--from").map(|i| a.rest[i + 1].parse().unwrap()).unwrap_or(0);
             let mut k = 0usize;
             if only.is_none() {
                 // corpus: the unit test of bbox_own_areas.rs
                 let c = vec![B::ltwh(0.0, 0.0, 10.0, 10.0), B::ltwh(5.0, 5.0, 10.0, 10.0), B::ltwh(10.0, 10.0, 10.0, 10.0)];
-                eval_set(k, "corpus", &c, &mut rng, true);
+                if k >= from { eval_set(k, "corpus", &c, a.seed, true); }
+                k += 1;
+                // minimised witness of C15:geo-difference:no-return (geo 0.27 does not return)
+                let q = |ang: f32| B { xc: 12.0, yc: 1.0, angle: Some(ang), aspect: 4.0, h: 2.0 };
+                let c = vec![q(4.712389), q(4.713389), q(0.0009765625), q(4.712389)];
+                if k >= from { eval_set(k, "corpus", &c, a.seed, true); }
                 k += 1;
                 // minimised witness of C15:geo-difference:collinear-edges (geo 0.27 panics; exact shares 0 and 0.5)
                 let c = vec![
                     B { xc: 0.0, yc: 0.0, angle: Some(0.25), aspect: 0.5, h: 1.0 },
                     B { xc: 0.0, yc: 0.0, angle: Some(0.25), aspect: 1.0, h: 1.0 },
                 ];
-                eval_set(k, "corpus", &c, &mut rng, true);
+                if k >= from { eval_set(k, "corpus", &c, a.seed, true); }
                 k += 1;
             }
             for _ in 0..a.n {
@@ -1121,7 +1163,9 @@ fn main() {
                     None => pick_cfg(&mut rng, &SET_CFGS).to_string(),
                 };
                 let v = gen_set(&mut rng, &cfg);
-                eval_set(k, &cfg, &v, &mut rng, true);
+                if k >= from {
+                    eval_set(k, &cfg, &v, a.seed, true);
+                }
                 k += 1;
             }
         }
@@ -1153,7 +1197,7 @@ fn main() {
                     "set" => {
                         let cfg = get("cfg=").unwrap_or("replay");
                         let v: Vec<B> = get("boxes=").unwrap().split(';').map(B::parse).collect();
-                        eval_set(k, cfg, &v, &mut rng, true);
+                        eval_set(k, cfg, &v, a.seed, true);
                     }
                     _ => {}
                 }
